@@ -231,3 +231,60 @@ def check_class_state(ctx, rep, rule: str, only: Callable = None) -> int:
                           f"{cname}.{fn.name} changes an object that hangs off the class (`{norm_text(muts[0])[:60] if muts else ''}`): a value parsed from one specification stays "
                           f"there and becomes the default of every object built afterwards in the same process")
     return n
+
+
+def shared_class_containers(cnode: ast.ClassDef):
+    """[(method, statement, attribute)]: a mutable container created in the CLASS body ({} / [] / set() / dict() …) and written by an instance method through self / the class
+    name: one object shared by every instance and subclass — whatever one model leaves in it is served to models with other data, sizes or parameters."""
+    shared = set()
+    for st in cnode.body:
+        if isinstance(st, ast.Assign) and len(st.targets) == 1 and isinstance(st.targets[0], ast.Name):
+            v = st.value
+            if isinstance(v, (ast.Dict, ast.List, ast.Set)) or (isinstance(v, ast.Call) and isinstance(v.func, ast.Name) and v.func.id in ('dict', 'list', 'set', 'defaultdict', 'OrderedDict')):
+                shared.add(st.targets[0].id)
+    if not shared:
+        return []
+    init_assigned = set()
+    for fn in cnode.body:
+        if isinstance(fn, ast.FunctionDef) and fn.name == '__init__':
+            for st in ast.walk(fn):
+                if isinstance(st, ast.Assign):
+                    for t in st.targets:
+                        if isinstance(t, ast.Attribute) and isinstance(t.value, ast.Name) and t.value.id == 'self':
+                            init_assigned.add(t.attr)
+    shared -= init_assigned
+    out = []
+    for fn in cnode.body:
+        if not isinstance(fn, ast.FunctionDef) or fn.name == '__init__':
+            continue
+
+        def is_shared(e):
+            return isinstance(e, ast.Attribute) and e.attr in shared and (
+                (isinstance(e.value, ast.Name) and e.value.id in ('self', 'cls', cnode.name)) or ast.unparse(e.value) in ('type(self)', 'self.__class__'))
+        for st in ast.walk(fn):
+            tgts = st.targets if isinstance(st, ast.Assign) else ([st.target] if isinstance(st, ast.AugAssign) else [])
+            for t in tgts:
+                if isinstance(t, ast.Subscript) and is_shared(t.value):
+                    out.append((fn, st, t.value.attr))
+            if isinstance(st, ast.Expr) and isinstance(st.value, ast.Call) and isinstance(st.value.func, ast.Attribute) and is_shared(st.value.func.value) \
+                    and st.value.func.attr in ('update', 'append', 'extend', 'setdefault', 'add', 'insert', 'pop', 'clear'):
+                out.append((fn, st, st.value.func.value.attr))
+    return out
+
+
+def check_shared_class_containers(ctx, rep, rule: str, only: Callable = None) -> int:
+    t = ast.parse("class A:\n    _marks = {}\n    def f(self, x):\n        m = self._marks.get(x.shape)\n        if m is None:\n            m = g(x)\n            self._marks[x.shape] = m\n        return m\n").body[0]
+    if len(shared_class_containers(t)) != 1:
+        from .loader import AnalysisError
+        raise AnalysisError('shared-container self-check failed')
+    n = 0
+    for m in ctx.prog.modules.values():
+        if only is not None and not only(m):
+            continue
+        for cname, cnode in m.classes.items():
+            n += 1
+            for fn, st, attr in shared_class_containers(cnode):
+                rep.bad(rule, f"{m.name.replace('torchtree.', '')}.{cname}.{fn.name}::{attr}::container-shared-by-all-instances", where(m, st), {'statement': norm_text(st)[:70]},
+                        f"{cname}.{fn.name} writes into `{attr}`, a container created in the class body: it is one object for every {cname} (and subclass) of the process, so what a "
+                        f"model with one configuration stores there is served to a model with another (same key, other taxa / grid / data)")
+    return n
